@@ -19,12 +19,12 @@ def install(R):
     R.add(PR + "check_for_duplicates", result="none", props=["C01"],
           notes="values that are neither Ellipsis nor iterable raise TypeError in CPython: not modelled",
           loops={"loop0": dict(idx="_i", ghost_init=["wit_init()"], ghost_post=["wit_put(val, _i)"], modifies=["ghost:wit"], inv=[
-              ("seen_has_prefix", "forall(lambda a: implies(0 <= a and a < _i, mhas(seen, sget(values, a))))"),
-              ("seen_only_prefix", "forall(lambda v_x: implies(mhas(seen, v_x), 0 <= wit_at(v_x) and wit_at(v_x) < _i and sget(values, wit_at(v_x)) == v_x))"),
-              ("prefix_distinct", "forall(lambda a, b: implies(0 <= a and a < b and b < _i, sget(values, a) != sget(values, b)))"),
+              ("seen_has_prefix", "forall(lambda a: implies(0 <= a and a < _i, mhas(seen, sget(iter_(values), a))))"),
+              ("seen_only_prefix", "forall(lambda v_x: implies(mhas(seen, v_x), 0 <= wit_at(v_x) and wit_at(v_x) < _i and sget(iter_(values), wit_at(v_x)) == v_x))"),
+              ("prefix_distinct", "forall(lambda a, b: implies(0 <= a and a < b and b < _i, sget(iter_(values), a) != sget(iter_(values), b)))"),
           ])},
-          ensures=[("no_duplicates", "is_ellipsis(values) or sdistinct(values)")],
-          raises={"XYZError": dict(when="not is_ellipsis(values) and not sdistinct(values)")})
+          ensures=[("no_duplicates", "is_ellipsis(values) or sdistinct(iter_(values))")],
+          raises={"XYZError": dict(when="not is_ellipsis(values) and not sdistinct(iter_(values))")})
     IsIter = z3.Function("isiterable", V, z3.BoolSort())
     x_ = z3.Const("x!", V)
     R.axioms.append(("isiterable_model", z3.ForAll([x_], z3.And(
@@ -51,7 +51,7 @@ def install(R):
         return mk_bool(z3.And(T.is_VObj(cv), T.tag(cv) == T.TAG["tuple"],
                               z3.ForAll([k], z3.Implies(z3.And(0 <= k, k < T.slen(cv)),
                                                         z3.And(T.is_VObj(pair), T.tag(pair) == T.TAG["tuple"], T.slen(pair) == 2,
-                                                               z3.Or(T.sget(pair, 1) == Ellipsis_, T.sdistinct(T.sget(pair, 1))))),
+                                                               z3.Or(T.sget(pair, 1) == Ellipsis_, T.sdistinct(T.iter_of(T.sget(pair, 1)))))),
                                         patterns=[T.sget(cv, k)])))
     S["CombosOK"] = combos_ok
 
@@ -64,10 +64,11 @@ def install(R):
     R.add(PR + "parse_combos", result="V", props=["C01", "C03"],
           requires=[("spelling", "combos is None or is_dict(combos) or is_seq(combos)")],
           loops={"loop0": dict(idx="_i", inv=[
-              ("checked", "forall(lambda k: implies(0 <= k and k < _i, is_ellipsis(sget(sget(combos, k), 1)) or sdistinct(sget(sget(combos, k), 1))))"),
+              ("checked", "forall(lambda k: implies(0 <= k and k < _i, is_ellipsis(sget(sget(combos, k), 1)) or sdistinct(iter_(sget(sget(combos, k), 1)))))"),
           ])},
           ensures=[
               ("nothing", "implies(not truthy(old(combos)), slen(result) == 0)"),
+              ("sequence", "is_seq(result)"),
               ("normal_form", "implies(truthy(old(combos)), CombosOK(result))"),
               ("dict_spelling", "implies(truthy(old(combos)) and is_dict(old(combos)), slen(result) == slen(old(combos).keys()) and "
                                 "forall(lambda k: implies(0 <= k and k < slen(result), sget(sget(result, k), 0) == sget(old(combos).keys(), k) and "
